@@ -29,7 +29,8 @@ RULE = ('cases: pupils 1..6 x 1..6 (even/odd/non-square, off-centre, segmented) 
         'accepted and too large; scratch none / exact / larger / too small, zero / random-dirty / left from a previous call; '
         'tilted wavefronts; one case in five has anisotropic dx*du (non-square grids, wider and taller, mostly with dirty/re-used scratch: '
         'scratch = no scratch, exact scratch_shape and refusals are checked there too; only FFT vs DFT is the known-finding class). distinct = (pupil, grid, os, shape, scratch, class); '
-        'non-trivial = odd grid or scratch or explicit shape or refusal')
+        'non-trivial = odd grid or scratch or explicit shape or refusal'
+        ' Extremes stream: every length scaled by 1e-9..1e3, 1/alpha within 1e-9..3e-4 of an integer, per-axis output pitches differing by 1e-5..3e-3 relative, grids up to 48 in search/thorough (oracle only above 16).')
 TRUSTED = ['np.fft.fft2(norm="ortho") = unitary DFT with origin at index 0; np.fft.fftshift/ifftshift = rotations by +-floor(n/2); '
            'np.round = round-half-even; lentil.field.insert as modelled by insertArr (C06)']
 UNPROVEN = ['scratch_shape(wavelength=list) is sufficient for every listed wavelength (np.max; monotonicity of round(1/alpha) in wavelength): oracle only',
@@ -41,26 +42,31 @@ WL, Z = P.WL, P.Z
 def _even_round(x):
     return int(np.round(x))
 
-def generate(rng, tier):
-    n = {'quick': 150, 'thorough': 2500, 'search': 300}[tier]
-    out = []
-    for k in range(n):
-        p = P._pupil(rng, 6)
+def _case(rng, tier, k, out, scale=1.0, near=None, smax=None, kmax=6):
+    """one case appended to `out`. `scale` multiplies every length (nothing observable but the reported wavelength, which
+    scales along, may change); near='int': 1/alpha within 1e-9 .. 3e-4 of an integer; near='axis': per-axis output pitches that
+    differ by a relative 1e-5 .. 3e-3 only"""
+    if True:
+        WL = float(rng.choice([5e-7, 4.25e-7, 6.5e-7, 1.1e-6])) * scale; Z = float(rng.choice([8.0, 2.5, 20.0, 0.75])) * scale
+        p = P._pupil(rng, kmax, wl=WL)
         m, nn = p['shape']
         os_ = int(rng.integers(1, 5))
-        WL = float(rng.choice([5e-7, 4.25e-7, 6.5e-7, 1.1e-6])); Z = float(rng.choice([8.0, 2.5, 20.0, 0.75]))
-        smax = 12 if tier != 'thorough' else 16
-        cls = 'aniso' if k % 5 == 4 else 'iso'
-        if rng.integers(0, 2): dx = [1 / 64, 1 / 64]; scalar_dx = True
-        else: dx = [float(rng.choice([1 / 64, 1 / 32])), float(rng.choice([1 / 64, 1 / 32]))]; scalar_dx = dx[0] == dx[1]
-        S = int(rng.integers(max(m, nn, 2), smax + 1))
+        smax = smax or (12 if tier != 'thorough' else 16)
+        cls = 'aniso' if (k % 5 == 4 and near is None) else 'iso'
+        if rng.integers(0, 2): dx = [scale / 64, scale / 64]; scalar_dx = True
+        else: dx = [float(rng.choice([1 / 64, 1 / 32])) * scale, float(rng.choice([1 / 64, 1 / 32])) * scale]; scalar_dx = dx[0] == dx[1]
+        S = int(rng.integers(max(m, nn, 2), max(m, nn, 2, smax) + 1))
         target = S + float(rng.choice([0.0, 0.0, rng.uniform(-0.35, 0.35), 0.5 if rng.integers(0, 6) == 0 else 0.0]))
+        if near == 'int': target = S + float(rng.choice([-1, 1]) * 10 ** rng.uniform(-9, -3.5))
         # 1/alpha = wl*z*os/(dx*du) = target  ->  du = wl*z*os/(dx*target)
         du = [WL * Z * os_ / (dx[0] * target), WL * Z * os_ / (dx[1] * target)]
         if cls == 'aniso':
             S2 = int(rng.integers(max(m, nn, 2), smax + 1))
             if S2 == S: S2 = S + 1
             du[1] = WL * Z * os_ / (dx[1] * S2)
+        if near == 'axis':
+            cls = 'aniso'; S2 = S
+            du[1] = du[0] * dx[0] / dx[1] * (1 + float(rng.choice([-1, 1]) * 10 ** rng.uniform(-5, -2.5)))
         scalar_du = bool(du[0] == du[1] and rng.integers(0, 2))
         t = rng.integers(0, 6)
         Smin = min(S, S if cls == 'iso' else S2)
@@ -76,7 +82,7 @@ def generate(rng, tier):
                        'pad': [int(rng.integers(0, 4)), int(rng.integers(0, 4))], 'seed': int(rng.integers(0, 2 ** 31))}
             if scratch['size'] == 'larger' and scratch['pad'] == [0, 0]: scratch['pad'] = [1, 2]
             if scratch['size'] == 'small': scratch['pad'] = [-1, 0] if rng.integers(0, 2) else [0, -1]
-        if cls == 'aniso' and rng.integers(0, 10) < 7:
+        if cls == 'aniso' and near is None and rng.integers(0, 10) < 7:
             # non-square grids (wider than tall and taller than wide) with a dirty / re-used buffer, exact or larger
             scratch = {'size': 'exact' if rng.integers(0, 2) else 'larger', 'content': 'dirty' if rng.integers(0, 2) else 'prev',
                        'pad': [0, 0], 'seed': int(rng.integers(0, 2 ** 31))}
@@ -92,10 +98,32 @@ def generate(rng, tier):
         if scratch is not None and scratch['size'] != 'small' and rng.integers(0, 3) == 0:
             wl_list = [WL * f for f in (0.7, 1.0, 0.85)] if rng.integers(0, 2) else [WL, WL * 0.6]
             if rng.integers(0, 2): wl_list = wl_list[::-1]
-        out.append({'kind': 'fft', 'class': cls, 'pupil': p, 'dx': dx, 'scalar_dx': bool(scalar_dx), 'du': du, 'scalar_du': scalar_du,
+        c = ({'kind': 'fft', 'class': cls, 'pupil': p, 'dx': dx, 'scalar_dx': bool(scalar_dx), 'du': du, 'scalar_du': scalar_du,
                     'wl': WL, 'z': Z, 'os': os_, 'shape': shape, 'scratch': scratch, 'tilt': tilt, 'tilt_on': tilt_on, 'wl_list': wl_list,
                     'wtilt': bool(tilt is not None and tilt_on == 'all' and rng.integers(0, 2))})
+        if scale != 1.0: c['scale'] = scale
+        if near: c['near'] = near
+        if S > 16: c['nomodel'] = True
+        out.append(c)
+
+SCALES = [1e-9, 1e-6, 1e-3, 1.0, 1e3]
+
+def generate(rng, tier):
+    n = {'quick': 150, 'thorough': 2500, 'search': 300}[tier]
+    out = []
+    for k in range(n): _case(rng, tier, k, out)
+    # extremes stream: tiny/huge physical scales, near-integer 1/alpha, near-equal per-axis pitches, larger grids
+    for k in range({'quick': 10, 'thorough': 200, 'search': 240}[tier]):
+        t = k % 5
+        if t == 0: _case(rng, tier, k, out, scale=float(rng.choice(SCALES)))
+        elif t == 1: _case(rng, tier, k, out, near='int', scale=float(rng.choice([1.0, 1e-6])))
+        elif t == 2: _case(rng, tier, k, out, near='axis', scale=float(rng.choice([1.0, 1e-3, 1e-6])))
+        elif t == 3: _case(rng, tier, k, out, near='int', smax=12)
+        else:
+            if tier == 'quick': _case(rng, tier, k, out, near='axis')
+            else: _case(rng, tier, k, out, near=['int', 'axis', None][int(rng.integers(0, 3))], smax=48, kmax=8)
     return out
+
 
 # ------------------------------------------------------------------------------------------ implementation
 def _wave(c):
@@ -182,6 +210,7 @@ def impl(c):
     return res
 
 def requests(c, io):
+    if c.get('nomodel'): return []
     inp = io['in']
     shape = c['shape']
     if isinstance(shape, int): shape = [shape, shape]
@@ -195,6 +224,7 @@ def requests(c, io):
 def _c(d): return (np.array(d['re']) + 1j * np.array(d['im'])).reshape(d['shape'])
 
 def compare(c, io, mo):
+    if c.get('nomodel'): return None
     m = mo[0]
     if 'exc' in io:
         if m.get('ok'): return f"implementation raised {io['exc']} ({io.get('msg')}), model answered"
@@ -249,6 +279,12 @@ def oracle(c, io):
     if io['shape'] != S_out: return f"output shape {io['shape']} != {S_out}"
     if io['focal_length'] != inp['focal_length']: return 'focal length not carried'
     if any(abs(a - b / os_) > 1e-12 * b for a, b in zip(io['pixelscale'], c['du'])): return 'output sampling != du/oversample'
+    # the wavelength it reports is the one at which the grid is critically sampled: alpha(lambda') = 1/S (on the axis it is
+    # taken from; for isotropic dx*du on both)
+    lam_axis = [S[a] * inp['pixelscale'][a] * c['du'][a] / (Z * os_) for a in (0, 1)]
+    if min(abs(io['wavelength'] - l) / l for l in lam_axis) > 1e-9:
+        return (f"reported wavelength {io['wavelength']!r} is not the wavelength of the FFT grid {S} (per axis {lam_axis[0]!r}, {lam_axis[1]!r}; "
+                f"requested {WL!r}, 1/alpha = {WL * Z * os_ / (inp['pixelscale'][0] * c['du'][0])!r})")
     got = _c(io['out'])
     tol = P._tol(io)
     if got.size == 0: return None
@@ -280,7 +316,7 @@ def replay_finding(kf):
 # ------------------------------------------------------------------------------------------ coverage
 def signature(c):
     s = c['scratch']
-    return (f"{c['class']} wl={P._wz(c)[0]:.3g} z={P._wz(c)[1]:g} wll={c.get('wl_list') is not None} ton={c.get('tilt_on')} {c['pupil']['shape']} seg={c['pupil']['seg'] is not None} du={c['du'][0]:.6g},{c['du'][1]:.6g} os={c['os']} shape={c['shape']} "
+    return (f"sc={c.get('scale')} near={c.get('near')} {c['class']} wl={P._wz(c)[0]:.3g} z={P._wz(c)[1]:g} wll={c.get('wl_list') is not None} ton={c.get('tilt_on')} {c['pupil']['shape']} seg={c['pupil']['seg'] is not None} du={c['du'][0]:.6g},{c['du'][1]:.6g} os={c['os']} shape={c['shape']} "
             f"scratch={None if s is None else (s['size'], s['content'], s['pad'])} tilt={c['tilt'] is not None}")
 
 def nontrivial(c):
@@ -297,6 +333,8 @@ def tags(c):
     t.append('shape:' + ('default' if sh is None else 'int' if isinstance(sh, int) else 'pair'))
     if c['tilt'] is not None: t.append('tilted:' + ('one-segment' if c.get('tilt_on', 'all') != 'all' else 'wavefront' if c.get('wtilt') else 'plane'))
     if c.get('wl_list'): t.append('scratch_shape:wavelength-list')
+    if c.get('scale'): t.append(f"scale={c['scale']:g}")
+    if c.get('near'): t.append('near:' + c['near'])
     t.append(f"wl={P._wz(c)[0]:.3g}"); t.append(f"z={P._wz(c)[1]:g}")
     return t
 
